@@ -5,6 +5,7 @@ import os
 
 HERE = os.path.dirname(os.path.dirname(os.path.abspath(__file__)))
 ALL = ["C%02d" % i for i in range(1, 21)]
+WIRED = ("C01", "C03", "C04", "C05", "C06", "C07", "C11", "C12", "C13", "C14", "C15", "C20")   # keys of sa.ctorflow.WIRING
 
 # id -> (technique, level text, level note, design_ref)
 CLAIMS = {
@@ -282,6 +283,12 @@ def main():
         if pid not in CLAIMS:
             continue
         tech, text, note, ref = CLAIMS[pid]
+        if pid in WIRED:
+            tech += ("; wiring rules over the resolved calls of the modules the property owns (sa/ctorflow.py): constructor forwarding along the MRO, argument exchange / "
+                     "double feed by parameter name")
+            text += (" Wiring (added after the seventh seeding round): every super().__init__ hands each option both constructors accept on under its own name, and no call "
+                     "binds two parameters of its resolved callee to each other's names or feeds one value into its own slot and another - a necessary condition for whatever "
+                     "the declared options stand for, decided on the call graph, not on the anchored functions' bodies.")
         checks.append({
             "property_id": pid,
             "quick_cmd": "./check %s --tier quick" % pid,
